@@ -58,6 +58,7 @@ const (
 	c14TwoFiles
 	c14Missing
 	c14Dir
+	c14SameTwice
 	c14NSource
 )
 
@@ -183,6 +184,11 @@ func c14Check(c *fw.Ctx, s c14Spec, al c14Alpha) *fw.Violation {
 		argv = append(argv, in1, filepath.Join(dir, "missing.json"))
 		refusedEarly = true
 		nfiles = 2
+	case c14SameTwice:
+		// the awk two-pass idiom: the same path named twice is read twice
+		argv = append(argv, in1, in1)
+		libFiles = []drive.File{{Name: in1, Data: input}, {Name: in1, Data: input}}
+		nfiles = 2
 	case c14Dir:
 		ad := filepath.Join(dir, "adir")
 		argv = append(argv, ad)
@@ -289,7 +295,7 @@ func c14RootSelector(c *fw.Ctx, prog, input, sel string) *fw.Violation {
 func init() {
 	fw.Register(&fw.Prop{
 		ID: "C14",
-		Rule: "the full product {inline, -f} x {stdin, one file, two files, a missing file, a directory as file} x {no selector, one, two, a failing one} x {no -o, -o -, -o FILE, -o into a missing directory} x 12 programs (silent, printing, mutating $, BEGINFILE replacing $, exit, syntax error, runtime error before / after output, $file, END, exit in BEGIN, state across values) x 6 inputs (array, object, scalar, two values, empty, malformed), on the real binary; " +
+		Rule: "the full product {inline, -f} x {stdin, one file, two files, a missing file, a directory as file, the same file twice} x {no selector, one, two, a failing one} x {no -o, -o -, -o FILE, -o into a missing directory} x 12 programs (silent, printing, mutating $, BEGINFILE replacing $, exit, syntax error, runtime error before / after output, $file, END, exit in BEGIN, state across values) x 6 inputs (array, object, scalar, two values, empty, malformed), on the real binary; " +
 			"oracle: the in-process library run of the same program, selectors and inputs (stdout, outcome, JSON output) plus the wrapper laws (exit 0 iff success and nothing refused, diagnostic on stderr otherwise, no stack trace, -o FILE == bytes of -o -, a missing file refused before any output); " +
 			"and -r E == BEGINFILE { $ = E } for every program without BEGINFILE/ENDFILE x every input x 6 selectors; thorough doubles the three alphabets; a state is (source, -o mode, selector list, -f, library outcome); non-trivial = same",
 		Plan:  func(t fw.Tier) int { return 2 * c14NSource * c14NOut },
